@@ -49,8 +49,10 @@ def tree_hash(root):
         return _tree_hash_cache[root]
     h = hashlib.sha1()
     for d, dirs, files in sorted(os.walk(root)):
-        dirs.sort()
+        dirs[:] = sorted(x for x in dirs if x != "__pycache__")      # byte-code caches are not sources
         for f in sorted(files):
+            if f.endswith((".pyc", ".pyo", ".swp")) or f.endswith("~"):
+                continue
             p = os.path.join(d, f)
             h.update(p.encode())
             with open(p, "rb") as fh:
